@@ -27,7 +27,7 @@ def split_sessions(sessions, nfiles):
     return [c for c in chunks if c], index
 
 
-def validate(module, chunks, constants, name="trace", jobs=16, heap="3g", timeout=3600,
+def validate(module, chunks, constants, name="trace", jobs=16, heap=None, timeout=3600,
              extra_env=None):
     """Run one TLC per chunk (each single-worker) over spec/<module>.tla.
 
